@@ -319,3 +319,24 @@ _MORE = {
 }
 for _k, _v in _MORE.items():
     CONFIG[_k]["rule"] += _v
+
+# Extensions that came out of the fourth round of seeded changes.
+_MORE4 = {
+    "C01": " 1/25 of the draws build the indicator with its argument-less constructor (55 indicators; the configuration is then the documented default). In a quarter of the draws of Macd, MassIndex, Tema, Ppo, Pvo, ChaikinOscillator and KeltnerChannel the smoothing constants of the nested EMA instances are assigned (0.25 .. 3).",
+    "C02": " In 1/8 of the cases 1-3 values of the series are missing (NaN): only the length law is checked there.",
+    "C04": " In 1/8 of the cases 1-3 values of the series or of the replacement suffix are missing (NaN).",
+    "C05": " Compounds: an output that holds a Buy or Sell must have exactly n actions (only an all-Hold output of a too short input may be longer).",
+    "C06": " WeightedCloseStrategy.Ma and TsiStrategy.Signal (exported trend.Ma fields) are drawn from Sma, Ema, Smma, Wma, Hma, Kama; SnapshotFields: every SnapshotsAs... extractor against the field lists.",
+    "C07": " In half of the nested-expression cases identical sub-expressions are one shared instance (a third of the n-ary nodes repeat their first member); AllAndStrategies / AllSplitStrategies: every ordered pair of 0-4 scripted strategies, names and outputs against And / Split of the pair.",
+    "C08": " The scripted strategy of the ComputeWithOutcome check is one-shot: a second Compute call on the instance would replay the word inverted.",
+    "C10": " Operations copy (Append(dst, GetSince(src)) inside one repository), peek (a Get stream left open after its first snapshot across LastDate, Assets and another Get) and nospace (file-system: the asset file is a link to /dev/full; Append must return an error). The whole history runs under the goroutine census (a history that never finishes is a violation).",
+    "C11": " One string position in eight is a multi-character token that looks like the output of an escaping layer (\\u0026, \\\", &amp;, </script>, NUL, U+2028 ...).",
+    "C12": " CLI/indicator-sync: the program built from /repo's cmd/indicator-sync is run between two generated file-system repositories (dates relative to today, kept two days clear of the now-minus-days bound), 1-4 assets, names on the command line or none (= every asset of the source); the target and the exit status are compared with the model.",
+    "C13": " CLI/indicator-backtest: the program built from /repo's cmd/indicator-backtest is run on a generated file-system repository (1-4 assets, names or none = all, 1-6 workers); exit status 0, index.html lists exactly the expected assets, every asset page has one row per registry strategy, rows in non-increasing order, and both pages equal (as multisets of name=outcome) those of the same run through the API.",
+    "C14": " In half of the rendered cases a write whose last chunk is refused (full disk) precedes the checked write.",
+    "C15": " AccelerationBands over integer OHLC (int32, int64, int) with level and daily range drawn on a logarithmic scale up to 2^(bits-5): upper >= middle >= lower.",
+    "C19": " In a third of the CSV cases the codec instance has read another generated (damaged) document to its end before.",
+}
+for _k, _v in _MORE4.items():
+    CONFIG[_k]["rule"] += _v
+CONFIG["C13"]["thorough"]["checks"] = 500
